@@ -35,7 +35,7 @@ PROPS = {
                 assumptions=[E_ENV]),
     "C10": dict(profiles=[P("transfers", 3000, 300000), P("parsers", 3000, 400000), P("metadata", 1500, 80000)], fields=["status", "xf", "diff"],
                 assumptions=[E_ENV, "attached function names are non-empty and contain no '@' (C12 carve-out)"]),
-    "C11": dict(profiles=[P("adversarial", 3000, 600000, seeds_quick=2), P("transfers", 1000, 100000)], fields=["status", "rc"],
+    "C11": dict(profiles=[P("adversarial", 3000, 600000, seeds_quick=2), P("transfers", 1000, 100000), P("metadata", 1200, 60000)], fields=["status", "rc"],
                 assumptions=["vmInput and CallValue are non-nil (the node always sets them)", E_ENV,
                              "real allocation size is a runtime quantity the model cannot exhibit (partial): the model bounds every allocation by the argument count"]),
     "C12": dict(profiles=[P("parsers", 20000, 400000), P("nonces", 1000, 60000)], fields=["status", "xf"], strict=True),
